@@ -103,7 +103,7 @@ func execSched(h *caseHdr, ev M, line []byte) any {
 				st.result["err"] = "preparation: " + err.Error()
 			}
 			if pr.Op == "corrupt" && len(data) > 0 {
-				data = data[:len(data)-1] // the last entry is cut short: the decode fails half way through it
+				data[len(data)-1] = 0x80 // the last value of the last entry becomes a truncated varint: the decode fails inside the entry
 			}
 			st.data = data
 		}
